@@ -90,6 +90,9 @@ type Conn struct {
 	Chunker func(c *Conn, avail, want int) []int
 	// WriteFault, when set, is asked before the n-th (0-based) Write.
 	WriteFault func(n int, p []byte) error
+	// WriteFaultAfter, when set, is asked after the n-th (0-based) Write was
+	// delivered: the bytes reach the peer but the call reports the error.
+	WriteFaultAfter func(n int, p []byte) error
 	// ReadFault, when set, is asked before a Read returns data or blocks; a
 	// non-nil error is returned instead.
 	ReadFault func(c *Conn) error
@@ -97,6 +100,10 @@ type Conn struct {
 	NWrites   int
 	ReadSizes []int
 	Peer      *Conn
+	// CoalesceEnd: a Read that drains the buffer of an ended stream returns
+	// the final bytes together with the EOF/error (n > 0 and err != nil), as
+	// io.Reader permits and as the transports' own Read does.
+	CoalesceEnd bool
 	// First holds the first bytes (up to 64) this endpoint ever wrote.
 	First []byte
 	// AutoMark declares the end offset of every Write of this endpoint as
@@ -228,6 +235,14 @@ func (c *Conn) Read(p []byte) (int, error) {
 	if s.C.Logging() {
 		s.C.Logf("  %s: read %d of %d available (offset now %d)", c.Name, n, avail, c.In.Read)
 	}
+	if c.CoalesceEnd && len(c.In.Buf) == 0 {
+		if c.In.Err != nil {
+			return n, c.In.Err
+		}
+		if c.In.WClosed {
+			return n, io.EOF
+		}
+	}
 	return n, nil
 }
 
@@ -260,6 +275,11 @@ func (c *Conn) Write(p []byte) (int, error) {
 	c.put(p, s.Now())
 	if s.C.Logging() {
 		s.C.Logf("  %s: write %d (stream offset now %d)", c.Name, len(p), c.Out.Total)
+	}
+	if c.WriteFaultAfter != nil {
+		if err := c.WriteFaultAfter(k, p); err != nil {
+			return 0, err
+		}
 	}
 	return len(p), nil
 }
